@@ -176,8 +176,10 @@ class ConstantStreamGenerator(Elaboratable):
             bytes_per_word = 0
 
 
-        # Track when we're on the first and last packet.
-        on_first_packet = position_in_stream == self.start_position
+        # Track when we're on the first and last packet. The start position is applied when start() is pulsed,
+        # so we compare against the value latched back then, rather than against the live input.
+        first_position  = Signal.like(self.start_position)
+        on_first_packet = position_in_stream == first_position
         on_last_packet  = \
             (position_in_stream          == (data_length - 1)) | \
             (bytes_sent + bytes_per_word >= max_length)
@@ -232,7 +234,10 @@ class ConstantStreamGenerator(Elaboratable):
             with m.State('IDLE'):
 
                 # Keep ourselves at the beginning of the stream, but don't yet count.
-                m.d.sync += position_in_stream.eq(start_position)
+                m.d.sync += [
+                    position_in_stream  .eq(start_position),
+                    first_position      .eq(self.start_position),
+                ]
                 m.d.comb += [
                     rom_read_port.addr  .eq(start_position),
                 ]
